@@ -37,6 +37,7 @@ def property_returns_field(prog: Program, ci: Any, prop: Any, field: str) -> Opt
     I = Interp(prog)
     st = I.new_state()
     flag = ("sym", f"flag:{field}", "bool")
+    ci.require_attrs([field], "flag read by the property")
     selfv = st.alloc(HeapObj("obj", ci, {field: flag}, [], False, "self", False))
     outs = I.run(prop, {prop.params[0]: selfv}, st)
     if not outs:
@@ -44,7 +45,7 @@ def property_returns_field(prog: Program, ci: Any, prop: Any, field: str) -> Opt
     for o in outs:
         if o.kind != "return":
             return False
-        if [e for e in o.state.events if e.kind in ("call", "store", "storeitem", "global")]:
+        if [e for e in o.state.events if e.kind in ("call", "store", "storeitem", "global") and not e.target.startswith("logger.")]:
             return False
         v = o.value
         if v == flag or v == ("truthy", flag):
